@@ -9,6 +9,8 @@ import (
 	"github.com/element-of-surprise/coercion/plugins/registry"
 	"github.com/element-of-surprise/coercion/workflow/context"
 	"github.com/gostdlib/base/retry/exponential"
+
+	"verifharness/vprop"
 )
 
 // Request / response types of the scripted plugins (plain JSON-serialisable data).
@@ -159,6 +161,13 @@ func (p *plug) Execute(ctx context.Context, req any) (any, *plugins.Error) {
 		case <-time.After(overrunGuard):
 			l.note("overrun guard expired for %s#%d: context never cancelled", tag, n)
 		}
+		if st.Stubborn() {
+			// slow to honour the cancellation: keeps executing for stubbornHold of OBSERVED time (a frozen process
+			// stretches the hold instead of ending it)
+			held, stop := vprop.ObservedAfter(stubbornHold)
+			<-held
+			stop()
+		}
 		// answer late (Wrap selects how late): the engine has timed the attempt out and moved on, possibly to the next
 		// attempt; the late answer below must never be recorded anywhere
 		time.Sleep([...]time.Duration{200 * time.Microsecond, time.Millisecond, 3 * time.Millisecond, 8 * time.Millisecond}[st.Wrap%4])
@@ -218,6 +227,9 @@ func (p *plug) wrongTyped(tag string, n int, st Step) any {
 }
 
 const overrunGuard = 8 * time.Second
+
+// stubbornHold is how long a stubborn overrun keeps executing after its context was cancelled.
+const stubbornHold = 2 * time.Second
 
 // newRegistry registers the four scripted plugins. With swap (Scenario.SwapTypes) the two names of each kind exchange
 // their request/response types: plugin names are unique within one registry only, and thousands of scenarios with their
